@@ -580,8 +580,6 @@ class Executor:
         raise Unsupported(f"except {t} against {exc}: class hierarchy not modelled", h)
 
     def st_Try(self, s, env):
-        if s.orelse:
-            raise Unsupported("try/else", s)
         try:
             try:
                 self.run(s.body, env)
@@ -598,6 +596,9 @@ class Executor:
                         break
                 else:
                     raise
+            else:
+                # try/else: runs when the body raised nothing; its own exceptions are NOT for the handlers above
+                self.run(s.orelse, env)
         except (ReturnSig, RaiseSig, BreakSig, ContinueSig):
             self.run(s.finalbody, env)
             raise
@@ -638,8 +639,6 @@ class Executor:
         ordinal = self.mod.loop_ordinal(s, self.loop_ordinal)
         it = self.ev(s.iter, env)
         conc = V.try_concrete_iter(self, it)
-        if s.orelse:
-            raise Unsupported("for/else", s)
         if conc is not None:
             # concrete length: unroll (nested symbolic loops inside keep their own ordinal)
             for v in conc:
@@ -650,7 +649,11 @@ class Executor:
                     break
                 except ContinueSig:
                     continue
+            else:
+                self.run(s.orelse, env)          # for/else: only when the loop was not left by break
             return
+        if s.orelse:
+            raise Unsupported("for/else over a sequence of symbolic length", s)
         seq = V.as_seq(self, it, s)
         spec = self.loops.get(ordinal)
         if spec is None:
